@@ -660,7 +660,7 @@ class Fn:
         k = op['k']
         if k == 'const':
             if 'bytes' in op:
-                return ('bytes', op['bytes'], op['ty'])
+                return ('bytes', op['bytes'], op['ty'], op.get('name'))
             if 'promoted' in op:
                 return self._promoted(op['promoted'])
             if 'fn' in op:
